@@ -37,7 +37,7 @@ Qed.
 Lemma started_call_frame : forall k d w ps pc pv pst t args g v ro rs child w',
     start_call k d w ps pc pv pst t args g v ro rs = SFrame child w' -> f_stack child = [] /\ d <= 1024.
 Proof.
-  intros until w'. unfold start_call. destruct limits_ok as [_ [CD _]]. rewrite CD.
+  intros until w'. unfold start_call, run_precompile. destruct limits_ok as [_ [CD _]]. rewrite CD.
   destruct (1024 <? d) eqn:Hd; [discriminate|]. apply Z.ltb_ge in Hd.
   destruct k; repeat match goal with
     | |- context [if ?b then _ else _] => destruct b
@@ -93,7 +93,7 @@ Proof.
   - unfold next, stack_inv. cbn [c_frames set_pc set_stack f_stack length]. split; auto; lia.
   - (* CREATE *)
     match goal with |- context [start_create ?d ?w ?a ?b ?c ?dd ?ee ?ff] =>
-      destruct (start_create d w a b c dd ee ff) as [o gb w'|child w'|] eqn:Hs end.
+      destruct (start_create d w a b c dd ee ff) as [o gb w' iret|child w'|] eqn:Hs end.
     + unfold stack_inv. cbn [c_frames resume_create set_gas set_stack f_stack length]. split; auto; lia.
     + apply started_create_frame in Hs. destruct Hs as [Hc _].
       unfold stack_inv. cbn [c_frames]. rewrite Hc. split; [cbn; lia|].
@@ -101,7 +101,7 @@ Proof.
     + unfold stack_inv. cbn [c_frames set_gas set_stack f_stack]. split; auto. lia.
   - (* CREATE2 *)
     match goal with |- context [start_create ?d ?w ?a ?b ?c ?dd ?ee ?ff] =>
-      destruct (start_create d w a b c dd ee ff) as [o gb w'|child w'|] eqn:Hs end.
+      destruct (start_create d w a b c dd ee ff) as [o gb w' iret|child w'|] eqn:Hs end.
     + unfold stack_inv. cbn [c_frames resume_create set_gas set_stack f_stack length]. split; auto; lia.
     + apply started_create_frame in Hs. destruct Hs as [Hc _].
       unfold stack_inv. cbn [c_frames]. rewrite Hc. split; [cbn; lia|].
@@ -111,7 +111,7 @@ Proof.
     assert (Hp : (length (skipn (instr_pops (ICallOp k)) (f_stack f)) + 1 <= 1024)%nat).
     { rewrite skipn_length. destruct k; cbn [instr_pops] in *; lia. }
     match goal with |- context [start_call ?k ?d ?w ?a ?b ?c ?dd ?ee ?ff ?gg ?hh ?ii ?jj] =>
-      destruct (start_call k d w a b c dd ee ff gg hh ii jj) as [o gb w'|child w'|] eqn:Hs end.
+      destruct (start_call k d w a b c dd ee ff gg hh ii jj) as [o gb w' iret|child w'|] eqn:Hs end.
     + unfold stack_inv. cbn [c_frames resume_call set_stack f_stack length]. split; auto. lia.
     + apply started_call_frame in Hs. destruct Hs as [Hc _].
       unfold stack_inv. cbn [c_frames]. rewrite Hc. split; [cbn; lia|].
@@ -141,15 +141,15 @@ Proof.
     + cbn [c_frames length]; lia.
     + match goal with |- context [finish ?o ?r ?ff ?ww ?rr] => pose proof (finish_depth o r ff ww rr); lia end.
   - match goal with |- context [start_create ?d ?w ?a ?b ?c ?dd ?ee ?ff] =>
-      destruct (start_create d w a b c dd ee ff) as [o gb w'|child w'|] eqn:Hs end;
+      destruct (start_create d w a b c dd ee ff) as [o gb w' iret|child w'|] eqn:Hs end;
       cbn [c_frames length]; try lia.
     apply started_create_frame in Hs. lia.
   - match goal with |- context [start_create ?d ?w ?a ?b ?c ?dd ?ee ?ff] =>
-      destruct (start_create d w a b c dd ee ff) as [o gb w'|child w'|] eqn:Hs end;
+      destruct (start_create d w a b c dd ee ff) as [o gb w' iret|child w'|] eqn:Hs end;
       cbn [c_frames length]; try lia.
     apply started_create_frame in Hs. lia.
   - match goal with |- context [start_call ?k ?d ?w ?a ?b ?c ?dd ?ee ?ff ?gg ?hh ?ii ?jj] =>
-      destruct (start_call k d w a b c dd ee ff gg hh ii jj) as [o gb w'|child w'|] eqn:Hs end;
+      destruct (start_call k d w a b c dd ee ff gg hh ii jj) as [o gb w' iret|child w'|] eqn:Hs end;
       cbn [c_frames length]; try lia.
     apply started_call_frame in Hs. lia.
 Qed.
@@ -220,7 +220,7 @@ Proof. intros P e Hs n. induction n as [|n IH]; intros c Hc; cbn [EVM.run_n]; au
 Lemma init_call_inv : forall e w t input g v, stack_inv (init_call e w t input g v) /\ depth_inv (init_call e w t input g v).
 Proof.
   intros. unfold init_call.
-  destruct (start_call KCall 0 w (e_origin e) (e_origin e) 0 false t input g v 0 0) as [o gb w'|child w'|] eqn:Hs.
+  destruct (start_call KCall 0 w (e_origin e) (e_origin e) 0 false t input g v 0 0) as [o gb w' iret|child w'|] eqn:Hs.
   - destruct o; unfold stack_inv, depth_inv; cbn; split; auto; lia.
   - apply started_call_frame in Hs. destruct Hs as [Hc _].
     unfold stack_inv, depth_inv. cbn [c_frames length]. rewrite Hc. cbn. split; [split; [lia|constructor]|lia].
@@ -231,7 +231,7 @@ Lemma init_create_inv : forall e w init g v,
 Proof.
   intros. unfold init_create.
   match goal with |- context [start_create ?d ?ww ?a ?b ?cc ?dd ?ee ?ff] =>
-    destruct (start_create d ww a b cc dd ee ff) as [o gb w'|child w'|] eqn:Hs end.
+    destruct (start_create d ww a b cc dd ee ff) as [o gb w' iret|child w'|] eqn:Hs end.
   - unfold stack_inv, depth_inv; cbn; split; auto; lia.
   - apply started_create_frame in Hs. destruct Hs as [Hc _].
     unfold stack_inv, depth_inv. cbn [c_frames length]. rewrite Hc. cbn. split; [split; [lia|constructor]|lia].
